@@ -1,8 +1,7 @@
-(* Fill: textwrap.fill(text, width) with TextWrapper's defaults (expand_tabs, replace_whitespace,
-   drop_whitespace, break_long_words, break_on_hyphens) on the fragment where the regex splitter and
-   the long-word breaker are not exercised: no tab, no hyphen that the splitter would break at, every
-   word no longer than the width.  Outside the fragment the model declines (Unmodelled).
-   Definitions only. *)
+(* Fill: doctrans.pure_utils.fill, i.e. textwrap.fill(text, width, break_long_words=False,
+   break_on_hyphens=False) with TextWrapper's other defaults (expand_tabs, replace_whitespace,
+   drop_whitespace).  Only text containing a tab is declined (Unmodelled): tab expansion is column
+   dependent.  Definitions only. *)
 From Coq Require Import List Ascii Bool Arith ZArith.
 From Coq Require String.
 Import String.StringSyntax.
@@ -34,22 +33,6 @@ Definition chunks (s : str) : list str := chunks_aux s [] false.
 Definition is_space_chunk (c : str) : bool :=
   match c with x :: _ => ascii_eqb x sp | [] => true end.
 
-(* a hyphen at which wordsep_re may split: word character that is not a digit before it and a word
-   character after it; or a run of two or more hyphens.  Conservative over-approximation. *)
-Definition wordish (c : ascii) : bool := isalnum_c c || ascii_eqb c (ch 95).
-Fixpoint risky_hyphen (prev : option ascii) (s : str) : bool :=
-  match s with
-  | [] => false
-  | c :: r =>
-    (ascii_eqb c (ch 45)
-     && match r with
-        | d :: _ => ascii_eqb d (ch 45)
-                    || (wordish d && match prev with Some p => wordish p && negb (isdigit p) | None => false end)
-        | [] => false
-        end)
-    || risky_hyphen (Some c) r
-  end.
-
 (* take chunks while they fit *)
 Fixpoint take_fit (width cur_len : nat) (cs : list str) : list str * list str :=
   match cs with
@@ -66,8 +49,8 @@ Definition drop_last_space (l : list str) : list str :=
   | [] => l
   end.
 
-(* TextWrapper._wrap_chunks; fuel = number of chunks + 1 (every round consumes at least one chunk
-   because no chunk is longer than the width) *)
+(* TextWrapper._wrap_chunks with break_long_words=False; fuel = number of chunks + 1 (every round
+   consumes at least one chunk: a chunk longer than the width is put alone on its line) *)
 Fixpoint wrap_chunks (fuel width : nat) (cs : list str) (have_lines : bool) : list str :=
   match fuel with
   | O => []
@@ -77,22 +60,26 @@ Fixpoint wrap_chunks (fuel width : nat) (cs : list str) (have_lines : bool) : li
     | c0 :: r0 =>
       let cs1 := if is_space_chunk c0 && have_lines then r0 else cs in
       let '(taken, rest) := take_fit width 0 cs1 in
-      let line := drop_last_space taken in
+      let '(taken', rest') :=
+          match taken, rest with
+          | [], c :: r => if Nat.ltb width (List.length c) then ([c], r) else (taken, rest)
+          | _, _ => (taken, rest)
+          end in
+      let line := drop_last_space taken' in
       match line with
-      | [] => wrap_chunks f width rest have_lines
-      | _ => concat line :: wrap_chunks f width rest true
+      | [] => wrap_chunks f width rest' have_lines
+      | _ => concat line :: wrap_chunks f width rest' true
       end
     end
   end.
 
-(* textwrap.fill(text, width=w) *)
+(* doctrans.pure_utils.fill = textwrap.fill(text, width=w, break_long_words=False, break_on_hyphens=False) *)
 Definition fill (w : nat) (text : str) : outcome str :=
-  if mem_c tabch text || risky_hyphen None text then Err Unmodelled
+  if mem_c tabch text then Err Unmodelled          (* expand_tabs is column dependent: declined *)
+  else if Nat.eqb w 0 then Err ValueError
   else
     let cs := chunks (replace_ws text) in
-    if existsb (fun c => Nat.ltb w (List.length c)) cs then Err Unmodelled
-    else if Nat.eqb w 0 then Err ValueError
-    else Ok (join [nl] (wrap_chunks (S (List.length cs)) w cs false)).
+    Ok (join [nl] (wrap_chunks (S (List.length cs)) w cs false)).
 
 (* FAMILY: run_fill *)
 Definition run_fill (fn : sexp) (args : list sexp) : option sexp :=
